@@ -53,6 +53,7 @@ void setup()
    for(const char* b : bases)
    {
       if(!b) continue;
+      if(b == bases[0]) mkdir(b, 0700);   // VF_TMP itself may not exist yet (one level)
       std::string d = std::string(b) + "/vf-c13-" + std::to_string((long) getpid());
       if(mkdir(d.c_str(), 0700) == 0 || errno == EEXIST)
       {
@@ -101,31 +102,42 @@ template <class R> struct Entry
    int i, j;
    R v;
 };
+// total orders (doubles by bit pattern: NaN-safe; both copies of an entry must be the same number bit for bit)
+inline bool valLess(double a, double b)
+{
+   uint64_t x, y;
+   memcpy(&x, &a, 8);
+   memcpy(&y, &b, 8);
+   return x < y;
+}
+inline bool valLess(const Rational& a, const Rational& b)
+{
+   return a < b;
+}
 template <class R> bool entryLess(const Entry<R>& a, const Entry<R>& b)
 {
    if(a.i != b.i) return a.i < b.i;
    if(a.j != b.j) return a.j < b.j;
-   return a.v < b.v;
+   return valLess(a.v, b.v);
 }
-inline bool same(double a, double b)
+template <class R> bool same(const R& a, const R& b)
 {
-   return memcmp(&a, &b, sizeof(double)) == 0 || a == b;
+   return !valLess(a, b) && !valLess(b, a);
 }
-inline bool same(const Rational& a, const Rational& b)
-{
-   return a == b;
-}
+// returns true if a sparse vector holds the same index twice (SVectorBase::isConsistent forbids it) and that is
+// the excluded known finding mps-duplicate-entry
 template <class R, class RowFn, class ColFn>
-void checkMirror(int m, int n, long nnz, RowFn row, ColFn col, const std::string& w)
+bool checkMirror(int m, int n, long nnz, RowFn row, ColFn col, const std::string& w, bool fmtMps)
 {
    std::vector<Entry<R>> byRow, byCol;
+   bool bad = false;
    for(int i = 0; i < m; i++)
    {
       const SVectorBase<R>& v = row(i);
       for(int k = 0; k < v.size(); k++)
       {
          if(v.index(k) < 0 || v.index(k) >= n) vfz::fail(w + "row vector holds a column index outside [0,numCols)");
-         if(isNaN(v.value(k))) vfz::fail(w + "NaN coefficient stored");
+         if(isNaN(v.value(k))) bad |= vfz::nanStored(w, fmtMps);
          byRow.push_back(Entry<R> {i, v.index(k), v.value(k)});
       }
    }
@@ -145,32 +157,46 @@ void checkMirror(int m, int n, long nnz, RowFn row, ColFn col, const std::string
    for(size_t k = 0; k < byRow.size(); k++)
       if(byRow[k].i != byCol[k].i || byRow[k].j != byCol[k].j || !same(byRow[k].v, byCol[k].v))
          vfz::fail(w + "row-wise and column-wise storage do not mirror each other");
+   for(size_t k = 1; k < byRow.size(); k++)
+      if(byRow[k].i == byRow[k - 1].i && byRow[k].j == byRow[k - 1].j)
+      {
+         // known finding mps-duplicate-entry: MPSreadCols appends a repeated (column,row) coefficient
+         if(fmtMps && vfz::known("mps-duplicate-entry"))
+         {
+            vfz::count("excluded_known.mps-duplicate-entry");
+            return true;
+         }
+         vfz::fail(w + "a sparse vector holds the same index twice");
+      }
+   return bad;
 }
-void checkObject(SoPlex& sp, bool withRational, const char* what)
+// returns true if the LP carries an excluded known defect (duplicate entry, NaN): then it must not be solved
+bool checkObject(SoPlex& sp, bool withRational, const char* what, bool fmtMps = false)
 {
    std::string w = std::string(what) + ": ";
    int m = sp.numRows(), n = sp.numCols();
    if(m < 0 || n < 0) vfz::fail(w + "negative dimension");
-   checkMirror<double>(m, n, sp.numNonzeros(),
-                       [&](int i) -> const SVectorBase<double>& { return sp.rowVectorRealInternal(i); },
-                       [&](int j) -> const SVectorBase<double>& { return sp.colVectorRealInternal(j); }, w);
+   bool dup = checkMirror<double>(m, n, sp.numNonzeros(),
+                                  [&](int i) -> const SVectorBase<double>& { return sp.rowVectorRealInternal(i); },
+                                  [&](int j) -> const SVectorBase<double>& { return sp.colVectorRealInternal(j); }, w, fmtMps);
    for(int i = 0; i < m; i++)
    {
-      if(isNaN(sp.lhsReal(i)) || isNaN(sp.rhsReal(i))) vfz::fail(w + "NaN row side stored");
+      if(isNaN(sp.lhsReal(i)) || isNaN(sp.rhsReal(i))) dup |= vfz::nanStored(w, fmtMps);
       if(sp.lhsReal(i) > sp.rhsReal(i)) vfz::count("obs.lhs_gt_rhs");
    }
    for(int j = 0; j < n; j++)
    {
-      if(isNaN(sp.lowerReal(j)) || isNaN(sp.upperReal(j)) || isNaN(sp.objReal(j))) vfz::fail(w + "NaN bound or objective stored");
+      if(isNaN(sp.lowerReal(j)) || isNaN(sp.upperReal(j)) || isNaN(sp.objReal(j))) dup |= vfz::nanStored(w, fmtMps);
       if(sp.lowerReal(j) > sp.upperReal(j)) vfz::count("obs.lower_gt_upper");
    }
    if(withRational)
    {
       if(sp.numRowsRational() != m || sp.numColsRational() != n) vfz::fail(w + "rational and real LP have different dimensions");
-      checkMirror<Rational>(m, n, sp.numNonzerosRational(),
-                            [&](int i) -> const SVectorBase<Rational>& { return sp.rowVectorRational(i); },
-                            [&](int j) -> const SVectorBase<Rational>& { return sp.colVectorRational(j); }, w + "rational LP: ");
+      dup |= checkMirror<Rational>(m, n, sp.numNonzerosRational(),
+                                   [&](int i) -> const SVectorBase<Rational>& { return sp.rowVectorRational(i); },
+                                   [&](int j) -> const SVectorBase<Rational>& { return sp.colVectorRational(j); }, w + "rational LP: ", fmtMps);
    }
+   return dup;
 }
 void checkNames(const NameSet& ns, int dim, const char* which, bool fmtLP, bool isRow)
 {
@@ -253,9 +279,9 @@ bool excludedRational(const std::string& text, bool parsedAsMps)
       vfz::count("excluded_known.rat-exponent-overflow");
       return true;
    }
-   if(vfz::known("rat-zero-denominator") && vfz::hasZeroDenominator(text))
+   if(vfz::known("rat-denominator-unchecked") && vfz::hasBadDenominator(text))
    {
-      vfz::count("excluded_known.rat-zero-denominator");
+      vfz::count("excluded_known.rat-denominator-unchecked");
       return true;
    }
    if(parsedAsMps && vfz::known("mps-rational-rows-null") && vfz::known("mps-eof-hang") && vfz::mpsRowsLineWithoutName(text))
@@ -271,19 +297,19 @@ void readLP(int sel, std::string text, bool extMps, bool gz)
    bool rational = sel & 8, syncAuto = sel & 16;
    int top = (sel >> 5) & 7;
    bool noNames = (top == 1 || top == 2);
-   bool parsedAsMps = !text.empty() && (text[0] == '*' || text[0] == 'N');
    if(text.empty())
    {
-      // SPxLPBase::read() looks at a character it could not extract; what it does then depends on stack garbage
-      // (finding read-empty-uninit, visible to valgrind only). Deterministic part: nothing to read.
+      // SPxLPBase::read() looks at a character it could not extract; which reader runs then depends on stack
+      // garbage (candidate finding read-empty-uninit, visible to valgrind only)
       if(vfz::known("read-empty-uninit"))
       {
          vfz::count("excluded_known.read-empty-uninit");
          return;
       }
-      parsedAsMps = true;   // may be taken for MPS: keep the tokenizer away from end of file
+      vfz::completeMps(text);   // may be taken for MPS: keep the tokenizer away from end of file
    }
-   if(parsedAsMps) vfz::completeMps(text);
+   else if(text[0] == '*' || text[0] == 'N') vfz::completeMps(text);
+   bool parsedAsMps = !text.empty() && (text[0] == '*' || text[0] == 'N');
    if(rational && excludedRational(text, parsedAsMps)) return;
    if(!parsedAsMps && noNames && vfz::known("lpf-noname-leak"))
    {
@@ -301,6 +327,7 @@ void readLP(int sel, std::string text, bool extMps, bool gz)
    NameSet rn(16, 256), cn(16, 256);
    DIdxSet iv;
    int outcome = 0;
+   bool dup = false;
    try
    {
       bool ok = noNames ? sp.readFile(path.c_str()) : sp.readFile(path.c_str(), &rn, &cn, &iv);
@@ -321,7 +348,7 @@ void readLP(int sel, std::string text, bool extMps, bool gz)
    {
       vfz::count(k + ".ok");
       if(sp.numRows() >= 2 && sp.numCols() >= 2) vfz::count(k + ".ok_2x2");
-      checkObject(sp, syncAuto, "after successful read");
+      dup = checkObject(sp, syncAuto, "after successful read", parsedAsMps);
       if(!noNames)
       {
          checkNames(rn, sp.numRows(), "row", !parsedAsMps, true);
@@ -339,7 +366,7 @@ void readLP(int sel, std::string text, bool extMps, bool gz)
       }
       checkObject(sp, false, "after failed read");
    }
-   tryOptimize(sp, k.c_str());
+   if(!dup) tryOptimize(sp, k.c_str());
    finalSolve(sp, k.c_str());
 }
 
@@ -401,9 +428,9 @@ void readSettings(int sel, const std::string& text, bool asString, bool gz)
       NameSet rn(16, 256), cn(16, 256);
       if(!sp.readFile(g_good.c_str(), &rn, &cn)) vfz::fail("settings reader: the good LP could not be loaded");
    }
-   if(vfz::known("settings-nonfinite-real") && vfz::hasNonFiniteLiteral(text))
+   if(vfz::known("settings-nan-sigfpe") && vfz::hasNanLiteral(text))
    {
-      vfz::count("excluded_known.settings-nonfinite-real");
+      vfz::count("excluded_known.settings-nan-sigfpe");
       return;
    }
    int outcome = 0;
